@@ -54,7 +54,12 @@ fn tagged_list(r: &mut Rng) -> (Vec<String>, gen::Req) {
         let mut line = String::new();
         // categories a tag can be combined with: blocking, exception, important, csp
         match r.below(8) {
-            0 | 1 => line.push_str("@@"),
+            0 | 1 => {
+                line.push_str("@@");
+                if r.chance(1, 6) {
+                    opts.push("important".into());
+                }
+            }
             2 | 3 => opts.push("important".into()),
             4 => opts.push(format!("csp={}", r.ps(gen::CSP_DIRECTIVES))),
             5 => {
